@@ -204,6 +204,8 @@ class V:
         ta = _prod_term(self.c, ra)
         tb = _prod_term(o.c, rb)
         pos = self.c > 0 and o.c > 0 and all(REG.atoms[i][1] for i in ra) and all(REG.atoms[i][1] for i in rb)
+        if ta.get_id() > tb.get_id():
+            ta, tb = tb, ta          # commutative canonical order: the same pair always yields the same term
         i = _reg(ta + tb, pos)
         at = dict(common)
         nk = at.get(i, 0) + 1
